@@ -34,7 +34,9 @@ PATH = {'p': ('/p', ['/p']), 'empty': ('', ['/']), 'slash': ('/', ['/']), 'space
         'crlf': ('/a%0D%0Ab', ['/a%0D%0Ab', '/a%0d%0ab']), 'delims': ('/%2F%3F%23', ['/%2F%3F%23', '/%2f%3f%23']),
         'uni': ('/ü', ['/%C3%BC', '/%c3%bc']), 'dots': ('/a/../b/./c', ['/b/c', '/a/../b/./c']),
         'pct': ('/100%', ['/100%25', '/100%']), 'bslash': ('/a\\b', ['/a%5Cb', '/a%5cb', '/a\\b']),
-        'semi': ('/a;b=c', ['/a;b=c', '/a%3Bb=c', '/a%3Bb%3Dc'])}
+        'semi': ('/a;b=c', ['/a;b=c', '/a%3Bb=c', '/a%3Bb%3Dc']),
+        # an "@" after the authority (the host is still the one before the first "/")
+        'at': ('/u/@h2.test/x', ['/u/@h2.test/x', '/u/%40h2.test/x'])}
 QUERY = {'none': ('', ['']), 'kv': ('?k=v', ['?k=v']), 'space': ('?k=a b', ['?k=a%20b', '?k=a+b']),
          'crlf': ('?k=%0D%0Ax', ['?k=%0D%0Ax', '?k=%0d%0ax']), 'uni': ('?ä=ö', ['?%C3%A4=%C3%B6', '?%c3%a4=%c3%b6']),
          'amp': ('?a=b&&c', ['?a=b&&c']), 'qmark': ('?a=b?c', ['?a=b?c', '?a=b%3Fc']), 'hashenc': ('?a=%23', ['?a=%23'])}
@@ -131,7 +133,8 @@ def run_one(sc):
             ev, outcome = X.run_script(script, referer_text=parent)
         exps = [expected_plain()]
     elif use == 'start':
-        script = {'start': plain, 'steps': [{'status': 200}], 'maxred': 3}
+        # (the jar already holds a cookie of every host: only the cookie of the host being asked may go out)
+        script = {'start': plain, 'steps': [{'status': 200}], 'maxred': 3, 'jar0': ['h1', 'h2', 'h3']}
         try:
             ev, outcome = X.run_script(script, start_text=text)
         except ValueError as e:
